@@ -146,7 +146,7 @@ Proof.
       rewrite (loop_loopn _ _ _ (loopn_erase _ _ _ _ _ _ _ _ (G4 a) (G2 _ Hpl))).
       cbn [cont]. unfold ast at 1. cbn [done]. fold (ast false rdt p (addrs tz (g (erase a))) ser (single (soa_rr v))).
       inversion Hh as [|? ? Hw Hws]; subst.
-      rewrite drive_cons. unfold from_wire.
+      rewrite drive_cons by solve_req. unfold from_wire.
       rewrite process_running; [|apply running_ast|apply Hw|apply Hw]. cbn [m_answer].
       cbn [map concat] in Hrest.
       assert (Hz1 : zsorted (addrs tz (g (erase a)))).
@@ -175,7 +175,7 @@ Theorem axfr_converges_with_glue : forall v z0 ser recs ws,
 Proof.
   intros v z0 ser recs ws Hv [B [HB [PB ->]]] Hch.
   apply chunking_first in Hch. destruct Hch as (w & ws' & a & -> & Hr & Hw & Hws & Hcat).
-  unfold inbound_xfr, xfr_run. rewrite init_axfr. cbn [Z.eqb tAXFR tIXFR Pos.eqb]. rewrite drive_cons.
+  unfold inbound_xfr, xfr_run. rewrite init_axfr. cbn [Z.eqb tAXFR tIXFR Pos.eqb]. rewrite drive_cons by solve_req.
   rewrite (first_message_axfr z0 ser w (soa_rr v) a Hw Hr) by (split; reflexivity).
   pose proof Hv as [Httl Hwf].
   destruct (cont_full_glue ws' false (map single) a tAXFR z0 [] (match ser with Some sv => sv | None => 0 end) v
@@ -226,7 +226,7 @@ Proof.
     change (r :: c) with ([r] ++ c). rewrite erase_app, adds_app. exact Hz'.
   - destruct a as [|y a].
     + cbn [map loopT cont ist done]. inversion Hh as [|? ? Hw Hws]; subst.
-      rewrite drive_cons. unfold from_wire. rewrite group_true.
+      rewrite drive_cons by solve_req. unfold from_wire. rewrite group_true.
       rewrite process_running; [|repeat split; try reflexivity; discriminate|apply Hw|apply Hw]. cbn [m_answer].
       cbn [app map concat] in Hcat.
       destruct (IH (w_records w) p tz ser v r c Httl Hws Hr Hc Hcat) as [z' [n [Hn Hz']]].
@@ -263,7 +263,7 @@ Proof.
     apply (proj2 (PB (mkRR n cIN ty cv t d))). unfold body. cbn [flat_map]. apply in_or_app. left.
     cbn. left. reflexivity. }
   inversion HB as [|? ? Hpr Hpc]; subst.
-  unfold inbound_xfr, xfr_run. rewrite init_ixfr. cbn [Z.eqb tIXFR Pos.eqb]. rewrite drive_cons.
+  unfold inbound_xfr, xfr_run. rewrite init_ixfr. cbn [Z.eqb tIXFR Pos.eqb]. rewrite drive_cons by solve_req.
   rewrite (first_message_ixfr z0 ser false w (soa_rr v) a Hw Hr) by (split; reflexivity).
   cbv zeta. change (r_data (soa_rr v) mod two32) with (v_serial v).
   apply Z.eqb_neq in Hs. rewrite Hs, Hlt. cbn [andb]. rewrite after_tcp by reflexivity.
@@ -404,7 +404,7 @@ Proof.
   { intros k Hk. rewrite Hz, look_zone_of. apply key_eqb_neq in Hk. rewrite Hk. reflexivity. }
   pose proof (version_wf_last chain v0 Hv0 Hchain) as [Httl _].
   pose proof (step_final false z0 tz' (last chain v0) Httl) as Hf.
-  unfold inbound_xfr, xfr_run. rewrite init_ixfr. cbn [Z.eqb tIXFR Pos.eqb]. rewrite drive_cons.
+  unfold inbound_xfr, xfr_run. rewrite init_ixfr. cbn [Z.eqb tIXFR Pos.eqb]. rewrite drive_cons by solve_req.
   rewrite (first_message_ixfr z0 (v_serial v0) false w (soa_rr (last chain v0)) a Hw Hr) by (split; reflexivity).
   cbv zeta. change (r_data (soa_rr (last chain v0)) mod two32) with (v_serial (last chain v0)).
   assert (Hne : (v_serial (last chain v0) =? v_serial v0) = false).
